@@ -424,7 +424,8 @@ func TestB2C10Independent(t *testing.T) {
 						}
 						ivs[iv] = true
 					}
-					if prev, dup := ciphertexts[string(ct)]; dup && prev != ref && len(ct) > 0 {
+					// (short RC4 ciphertexts of different objects coincide by chance: 1 in 256 per byte)
+					if prev, dup := ciphertexts[string(ct)]; dup && prev != ref && len(ct) >= 8 {
 						t.Errorf("B2-FAIL equal-ciphertexts %s refs %v %v", desc, prev, ref)
 					}
 					ciphertexts[string(ct)] = ref
@@ -1538,7 +1539,8 @@ func TestB2C10Graph(t *testing.T) {
 						fail("iso-string %s %s ref=%v want=%.20q got=%.20q", desc, what, ref, ws[i], pt)
 					}
 					noteIV(ct, ref)
-					if prev, dup := ciphertexts[string(ct)]; dup && prev != ref && len(pt) > 0 {
+					// (short RC4 ciphertexts of different objects coincide by chance: 1 in 256 per byte)
+					if prev, dup := ciphertexts[string(ct)]; dup && prev != ref && len(ct) >= 8 {
 						fail("equal-ciphertexts %s refs %v %v", desc, prev, ref)
 					}
 					ciphertexts[string(ct)] = ref
